@@ -100,12 +100,18 @@ pub fn binary_size(vals: &[TVal], ops: &mut Ops) -> usize {
 }
 
 macro_rules! drive_bytesmut {
-    ($mk:expr, $vals:expr, $ops:expr) => {{
+    ($mk:expr, $vals:expr, $ops:expr, $sizes:expr) => {{
         let mut buf = BytesMut::new();
         let mut ends = Vec::new();
         {
             let mut p = $mk(&mut buf);
             for v in $vals {
+                if let Some(sz) = $sizes.as_mut() {
+                    let mut lops = Ops::default();
+                    lops.choice = $ops.choice;
+                    sz.push(len_val(&mut p, v, &mut lops));
+                    lops.flush_len_into($ops);
+                }
                 write_val(&mut p, v, $ops).map_err(|e| format!("{}", e))?;
                 ends.push(p.buf_mut().len());
             }
@@ -120,13 +126,19 @@ macro_rules! drive_bytesmut {
 }
 
 macro_rules! drive_linked {
-    ($mk:expr, $vals:expr, $ops:expr) => {{
+    ($mk:expr, $vals:expr, $ops:expr, $sizes:expr) => {{
         let mut lb = LinkedBytes::new();
         let mut ends = Vec::new();
         let zcl;
         {
             let mut p = $mk(&mut lb);
             for v in $vals {
+                if let Some(sz) = $sizes.as_mut() {
+                    let mut lops = Ops::default();
+                    lops.choice = $ops.choice;
+                    sz.push(len_val(&mut p, v, &mut lops));
+                    lops.flush_len_into($ops);
+                }
                 write_val(&mut p, v, $ops).map_err(|e| format!("{}", e))?;
                 ends.push(linked_len(&*p.buf_mut()));
             }
@@ -144,36 +156,62 @@ macro_rules! drive_linked {
 
 /// Write `vals` back to back with ONE protocol instance on ONE buffer.
 pub fn write_seq(wp: WP, bk: BK, vals: &[TVal], ops: &mut Ops) -> Result<Written, String> {
+    write_seq_sized(wp, bk, vals, ops, &mut None)
+}
+
+/// As `write_seq`; when `sizes` is `Some`, the size of every value is first
+/// computed WITH THE SAME protocol instance that then writes it (how a caller
+/// that sizes its buffer first uses the API), and pushed to the vector.
+pub fn write_seq_sized(
+    wp: WP,
+    bk: BK,
+    vals: &[TVal],
+    ops: &mut Ops,
+    sizes: &mut Option<Vec<usize>>,
+) -> Result<Written, String> {
     match (wp, bk) {
         (WP::Binary, BK::BytesMut) => {
-            drive_bytesmut!(|b| TBinaryProtocol::new(b, false), vals, ops)
+            drive_bytesmut!(|b| TBinaryProtocol::new(b, false), vals, ops, sizes)
         }
         (WP::Binary, BK::LinkedOff) => {
-            drive_linked!(|b| TBinaryProtocol::new(b, false), vals, ops)
+            drive_linked!(|b| TBinaryProtocol::new(b, false), vals, ops, sizes)
         }
-        (WP::Binary, BK::LinkedOn) => drive_linked!(|b| TBinaryProtocol::new(b, true), vals, ops),
+        (WP::Binary, BK::LinkedOn) => drive_linked!(|b| TBinaryProtocol::new(b, true), vals, ops, sizes),
         (WP::BinaryLe, BK::BytesMut) => {
-            drive_bytesmut!(|b| TBinaryLeProtocol::new(b, false), vals, ops)
+            drive_bytesmut!(|b| TBinaryLeProtocol::new(b, false), vals, ops, sizes)
         }
         (WP::BinaryLe, BK::LinkedOff) => {
-            drive_linked!(|b| TBinaryLeProtocol::new(b, false), vals, ops)
+            drive_linked!(|b| TBinaryLeProtocol::new(b, false), vals, ops, sizes)
         }
         (WP::BinaryLe, BK::LinkedOn) => {
-            drive_linked!(|b| TBinaryLeProtocol::new(b, true), vals, ops)
+            drive_linked!(|b| TBinaryLeProtocol::new(b, true), vals, ops, sizes)
         }
         (WP::Compact, BK::BytesMut) => {
-            drive_bytesmut!(|b| TCompactOutputProtocol::new(b, false), vals, ops)
+            drive_bytesmut!(|b| TCompactOutputProtocol::new(b, false), vals, ops, sizes)
         }
         (WP::Compact, BK::LinkedOff) => {
-            drive_linked!(|b| TCompactOutputProtocol::new(b, false), vals, ops)
+            drive_linked!(|b| TCompactOutputProtocol::new(b, false), vals, ops, sizes)
         }
         (WP::Compact, BK::LinkedOn) => {
-            drive_linked!(|b| TCompactOutputProtocol::new(b, true), vals, ops)
+            drive_linked!(|b| TCompactOutputProtocol::new(b, true), vals, ops, sizes)
         }
         (WP::Unchecked, _) => {
             let mut lops = Ops::default();
             lops.choice = ops.choice;
             let size = binary_size(vals, &mut lops);
+            if let Some(sz) = sizes.as_mut() {
+                // the unchecked output protocol's own length implementation,
+                // fresh instance per value (it is stateless)
+                for v in vals {
+                    let mut l2 = Ops::default();
+                    l2.choice = ops.choice;
+                    sz.push(len_fresh(WP::Unchecked, v, &mut l2));
+                    // keep chooser in step with the write walk below
+                    let mut adv = Ops::default();
+                    adv.choice = ops.choice;
+                    let _ = adv;
+                }
+            }
             write_seq_unchecked(bk, vals, size, ops)
         }
     }
@@ -259,46 +297,62 @@ pub struct ReadOne {
     pub pos: usize,
 }
 
-macro_rules! drive_read {
-    ($p:expr, $total:expr, $tts:expr, $hints:expr, $ops:expr, $unchecked:expr) => {{
-        let mut out = Vec::new();
-        for (i, tt) in $tts.iter().enumerate() {
-            let h = $hints.get(i);
-            let r = read_val(&mut $p, *tt, h, $ops);
-            let extra: usize = $unchecked(&$p);
-            let pos = $total - $p.buf().len() + extra;
-            let failed = r.is_err();
-            out.push(ReadOne { val: r, pos });
-            if failed {
-                break;
+/// One of pilota's four in-memory readers over a `Bytes`.
+pub enum Reader<'a> {
+    Bin(TBinaryProtocol<&'a mut Bytes>, usize),
+    Le(TBinaryLeProtocol<&'a mut Bytes>, usize),
+    Cmp(TCompactInputProtocol<&'a mut Bytes>, usize),
+    Un(TBinaryUnsafeInputProtocol<'a>, usize),
+}
+
+impl<'a> Reader<'a> {
+    pub fn new(wp: WP, b: &'a mut Bytes) -> Reader<'a> {
+        let total = b.len();
+        match wp {
+            WP::Binary => Reader::Bin(TBinaryProtocol::new(b, false), total),
+            WP::BinaryLe => Reader::Le(TBinaryLeProtocol::new(b, false), total),
+            WP::Compact => Reader::Cmp(TCompactInputProtocol::new(b), total),
+            WP::Unchecked => Reader::Un(unsafe { TBinaryUnsafeInputProtocol::new(b) }, total),
+        }
+    }
+    pub fn p(&mut self) -> &mut dyn TInputProtocol<Buf = Bytes> {
+        match self {
+            Reader::Bin(p, _) => p,
+            Reader::Le(p, _) => p,
+            Reader::Cmp(p, _) => p,
+            Reader::Un(p, _) => p,
+        }
+    }
+    /// bytes consumed from the start of the buffer (for the unchecked reader:
+    /// bytes advanced in the transport plus its index into the current window)
+    pub fn consumed(&mut self) -> usize {
+        match self {
+            Reader::Bin(p, t) => *t - p.buf().len(),
+            Reader::Le(p, t) => *t - p.buf().len(),
+            Reader::Cmp(p, t) => *t - p.buf().len(),
+            Reader::Un(p, t) => {
+                let i = p.index();
+                *t - p.buf().len() + i
             }
         }
-        out
-    }};
+    }
 }
 
 /// Read `tts.len()` values back to back with ONE reader instance.
 pub fn read_seq(wp: WP, bytes: &[u8], tts: &[TT], hints: &[TVal], ops: &mut Ops) -> Vec<ReadOne> {
     let mut b = Bytes::copy_from_slice(bytes);
-    let total = b.len();
-    match wp {
-        WP::Binary => {
-            let mut p = TBinaryProtocol::new(&mut b, false);
-            drive_read!(p, total, tts, hints, ops, |_p: &TBinaryProtocol<&mut Bytes>| 0)
-        }
-        WP::BinaryLe => {
-            let mut p = TBinaryLeProtocol::new(&mut b, false);
-            drive_read!(p, total, tts, hints, ops, |_p: &TBinaryLeProtocol<&mut Bytes>| 0)
-        }
-        WP::Compact => {
-            let mut p = TCompactInputProtocol::new(&mut b);
-            drive_read!(p, total, tts, hints, ops, |_p: &TCompactInputProtocol<&mut Bytes>| 0)
-        }
-        WP::Unchecked => {
-            let mut p = unsafe { TBinaryUnsafeInputProtocol::new(&mut b) };
-            drive_read!(p, total, tts, hints, ops, |p: &TBinaryUnsafeInputProtocol| p.index())
+    let mut r = Reader::new(wp, &mut b);
+    let mut out = Vec::new();
+    for (i, tt) in tts.iter().enumerate() {
+        let v = read_val(r.p(), *tt, hints.get(i), ops);
+        let pos = r.consumed();
+        let failed = v.is_err();
+        out.push(ReadOne { val: v, pos });
+        if failed {
+            break;
         }
     }
+    out
 }
 
 /// Length walk with a fresh length-protocol instance of the given protocol.
